@@ -222,7 +222,17 @@ Definition step_checks (cfg : config) (ms : mstate) (o : op) (outs : list out) (
   (* --- C06: on every step --- *)
   let c06 :=
     if sn_closed sn then [] else
-    [ ck "C06.no_duplicate_pairs" (nodup_by psnap_same_pair (sn_pairs sn));
+    [ (* judged at the step that introduces a duplicate; the one known way to get one (two distinct
+         peer-reflexive remotes on one transport address superseded by one signalled candidate) has its own name *)
+      ck (match o with
+          | AddRemote c =>
+            if 2 <=? Z.of_nat (List.length (filter (fun r => (rs_typ r =? CandidateTypePeerReflexive) && (rs_net r =? c_net c)
+                                                        && addr_eqb (rs_addr r) (c_addr c) && (rs_tcp r =? c_tcp c))
+                                              (sn_remotes prev)))
+            then "C06.no_duplicate_pairs.two_prflx_superseded"%string else "C06.no_duplicate_pairs"%string
+          | _ => "C06.no_duplicate_pairs"%string
+          end)
+         (negb (nodup_by psnap_same_pair (sn_pairs prev)) || nodup_by psnap_same_pair (sn_pairs sn));
       ck "C06.pair_ids_unique" (nodup_by (fun a b => ps_id a =? ps_id b) (sn_pairs sn)
                                 && forallb (fun p => (1 <=? ps_id p) && (ps_id p <=? sn_next_pair sn)) (sn_pairs sn));
       ck "C06.pair_ids_never_reused"
@@ -658,7 +668,10 @@ Fixpoint monitor_from (cfg : config) (ms : mstate) (tr : list obs) : checks :=
     let ms1 := step_mstate cfg ms o outs sn in
     let msj := mkMstate (ms_prev ms) (ms_sent ms) (ms_nomreq ms) (ms_locals ms) (ms_queue ms) (ms_now ms)
                         (ms_started ms) (ms_tick_last ms) (ms_check_since ms) (ms_wf ms1) in
-    step_checks cfg msj o outs sn ++ monitor_from cfg ms1 t
+    (* a datagram whose source family differs from its socket's, or inbound traffic before Start, cannot
+       occur (sockets are per family and are not read before Start): such a history is outside every
+       property's domain and is not judged from that point on *)
+    (if ms_wf ms1 then step_checks cfg msj o outs sn else []) ++ monitor_from cfg ms1 t
   end.
 
 Definition monitor (cfg : config) (lufrag lpwd : Z) (tr : list obs) : checks :=
